@@ -67,3 +67,10 @@ Inductive Conforms (bnm : bool) : schema -> nat -> dom -> Prop :=
 
 (* a document conforms when its root, seen through include-splicing, conforms to the root row at depth 0 *)
 Definition ConformsDoc (bnm : bool) (s : schema) (root : dom) : Prop := Conforms bnm s 0 (splice_root root).
+
+(* the meaning of the schema: every element validated by a row (by name or as an alias tag of the
+   body row: worldbody, frame, replicate) satisfies it *)
+Definition ConformsFull : schema -> dom -> Prop := ConformsDoc true.
+(* the weaker meaning: the same, except that children of an 'R' row carrying an alias tag (frame,
+   replicate) are left unconstrained, together with everything below them *)
+Definition ConformsOutsideAliases : schema -> dom -> Prop := ConformsDoc false.
